@@ -319,9 +319,14 @@ def inline_new_helpers(dd, known, max_rounds=4):
             nb0 = len(blocks)
             for bi in range(nb0):
                 t = blocks[bi]['term']
-                if t['k'] != 'call' or t.get('fn') not in helpers:
+                if t['k'] != 'call':
                     continue
-                h = helpers[t['fn']]
+                # a direct call, or a trait method call that resolves to an impl written after the pinned tree (e.g. TryFrom / PartialEq
+                # of a new private type)
+                hkey = t.get('fn') if t.get('fn') in helpers else (t.get('resolved') if t.get('resolved') in helpers else None)
+                if hkey is None:
+                    continue
+                h = helpers[hkey]
                 if h is b or len(t['args']) != h['argc']:
                     continue
                 if len(h['blocks']) > 400 or len(blocks) > 4000:
